@@ -3,10 +3,19 @@
 and a scratch worktree; nothing from /verif)."""
 import json, sys
 pid = sys.argv[1]
+first = int(sys.argv[2]) if len(sys.argv) > 2 else 1  # number of the first change (round 2 uses 3)
+focus_ix = [int(x) for x in sys.argv[3].split(",")] if len(sys.argv) > 3 else []
 props = {json.loads(l)["id"]: json.loads(l) for l in open("/verif/properties.jsonl")}
 p = props[pid]
 wt = f"/tmp/seed/{pid}"
 out = f"/tmp/seed/{pid}-out"
+mech = p["anchors"].get("mechanism", [])
+FOCUS = ""
+if focus_ix:
+    FOCUS = "  Parts of the implementation the property's own description names, on which to concentrate in this round (pick two different ones):\n" + "".join(
+        f"    - {mech[i]['name']} (in {mech[i]['where']})\n" for i in focus_ix if i < len(mech)
+    )
+N1, N2 = first, first + 1
 print(f"""You are helping to evaluate a verification effort for the open-source Python library pyoda-time (a pure-Python port of Noda Time: date/time value types, calendars, tz database reader/writer, text patterns).
 
 You have your own scratch git worktree of the library at {wt} (a detached checkout). Work ONLY inside {wt} and {out}. Do NOT read or touch /verif or /repo (they are off limits; reading them would invalidate the exercise).
@@ -16,17 +25,17 @@ THE PROPERTY (this is all you get; it is a semantic property the library is supp
   Title: {p['title']}
   Statement: {p['statement']}
   Quantified over: {p['quantifier']['text']}
-
+{FOCUS}
 YOUR TASK: produce up to TWO different, realistic source changes to the library (under {wt}/pyoda_time only) that each BREAK this property while the code still imports and the existing test-suite still passes. Think of the kind of bug a maintainer could plausibly introduce in a refactor or an optimisation: an off-by-one in a rarely hit branch, a wrong constant for one calendar/unit, a boundary comparison, a cache key that aliases, two sites that each look fine alone. IMPORTANT: prefer changes that need something SPECIFIC to manifest (an unusual input, a particular calendar/year/offset, a multi-step sequence of operations, a boundary value, a specific history) rather than ones that ordinary use or a trivial smoke test would expose at once. Do not add dead code, do not key the bug on magic constants unrelated to the domain, do not make it depend on environment variables or randomness.
 
-For EACH change write into {out}/<n>/ (n = 1, 2):
+For EACH change write into {out}/<n>/ (n = {N1}, {N2}):
   - patch.diff : output of `git -C {wt} diff` for that change alone (apply one change at a time; `git -C {wt} checkout -- .` between them)
   - demo.py    : a small stand-alone program using only the public behaviour of the library that exits with status 0 on the UNCHANGED library and a non-zero status (assertion failure) WITH the change applied, demonstrating the property violation
   - meta.json  : {{"property": "{pid}", "summary": "...what was changed...", "needs": "...what specific input/sequence is needed for it to manifest...", "files": [...]}}
 
 ENVIRONMENT FACTS YOU NEED:
   - The library needs ICU at import time. Always run python like this (PYTHONPATH makes your worktree win over the installed copy):
-      cd {wt} && LD_LIBRARY_PATH=/root/miniconda/pkgs/icu-73.1-h6a678d5_0/lib PYTHONPATH={wt} /venv/bin/python {out}/1/demo.py
+      cd {wt} && LD_LIBRARY_PATH=/root/miniconda/pkgs/icu-73.1-h6a678d5_0/lib PYTHONPATH={wt} /venv/bin/python {out}/{N1}/demo.py
   - Existing test-suite, which MUST still pass with your change applied (it takes ~25 s):
       cd {wt} && LD_LIBRARY_PATH=/root/miniconda/pkgs/icu-73.1-h6a678d5_0/lib /venv/bin/python -m pytest -q -p no:cacheprovider -n 8 --timeout=900
     Expected on the unchanged tree: "10356 passed, 14 skipped, 12 xfailed". With your change the result must be identical (no new failures). If a change makes any existing test fail, discard or refine it.
